@@ -45,6 +45,7 @@ StdEnvIn(id) ==
       BindV(N_s, VStr(<<97, 98>>)), BindV(N_u, VStr(<<233, 26195>>)), BindV(N_w, VStr(<<>>)),
       BindV(N_b, VBool(TRUE)), BindV(N_c, VBool(FALSE)),
       BindV(N_tm, VTime(86400)), BindV(N_d, VTime(90000)),
+      BindV(N_tf, [k |-> "time", v |-> 86400, ns |-> 250000000]), BindV(N_tg, [k |-> "time", v |-> 86401, ns |-> 750000000]),
       BindV(N_xs, IList(TList(TNum), <<VNum(NInt(1)), VNum(NInt(2)), VNum(NInt(3))>>)),
       BindV(N_ys, IList(TList(TNum), <<>>)),
       BindV(N_ss, IList(TList(TStr), <<VStr(<<97>>), VStr(<<98>>), VStr(<<97>>)>>)),
@@ -53,6 +54,9 @@ StdEnvIn(id) ==
       BindV(N_me, IMap(TMap(TStr, TNum), <<>>)),
       BindV(N_ob, IObj(TOab, <<VNum(NInt(1)), VStr(<<120>>)>>)),
       BindV(N_oba, IObj(TOba, <<VStr(<<121>>), VNum(NInt(2))>>)),
+      \* a value laid out in one field order under a DECLARED type that lists the fields in the other (an equal type:
+      \* such an environment conforms); dt is what the harness puts into the type environment
+      [n |-> N_obx, v |-> IObj(TOba, <<VStr(<<122>>), VNum(NInt(8))>>), dt |-> TOab],
       BindV(N_os, IList(TList(TOab), <<IObj(TOab, <<VNum(NInt(1)), VStr(<<120>>)>>), IObj(TOba, <<VStr(<<121>>), VNum(NInt(2))>>)>>)),
       BindV(N_oc, IObj(TObj(<<Fld(N_a, TNum)>>), <<VNum(NInt(5))>>)),
       BindV(N_od, IObj(TObj(<<Fld(N_a, TNum), Fld(N_b, TStr), Fld(N_c, TBool)>>), <<VNum(NInt(1)), VStr(<<120>>), VBool(TRUE)>>)),
